@@ -15,14 +15,21 @@ GMC = 'get_more_chars as a callee by the contract enforced in C08 (contracts/par
 
 
 def jobs():
-    R = ['get_more_chars', 'stub_read_func']
-    return [
-        Job('scan_to_eol', 'parser_scan_h.c', entry='harness_scan_to_eol', enforce='scan_to_eol', replace=R, tus=['parser.c'], defines={'MAXBUF': 16}, thorough_defines={'MAXBUF': 48},
-            loops=2, reach=['recovered', 'clean', 'rejected', 'unpaired-surrogate', 'disallowed', 'refilled'], min_obligations=40, timeout=1500, mem_gb=24, replay=False, trusted=[GMC],
-            flags=['--sat-solver', 'cadical'],
-            clauses=['disallowed unit => CIF_DISALLOWED_CHAR at that unit when consumed (all 65536 unit values, CIF 1.1 and 2.0 tables)', 'unpaired lead / trail surrogate => CIF_INVALID_CHAR, replaced',
-                     'no report without a defect at the reported text', 'text pointer inside the buffer for the stated length, line >= 1', 'result protocol', 'token ends at EOL or end of input']),
+    B = ('SCN (2 quick / 3 thorough) units of input with arbitrary content - every 16-bit value per unit, CIF 1.1 and CIF 2.0 class tables, every accept / reject answer of the callback; '
+         'the input ends with the buffer; all loops unwound completely')
+    common = dict(tus=['parser.c'], plain=True, no_loop_contracts=True, defines={'SCN': 2}, thorough_defines={'SCN': 3}, unwind=5, unwindset=['setup.%d:200' % k for k in range(8)], text_ui=True, min_obligations=40, timeout=1200, mem_gb=24,
+                  bounded=B, trusted=['reference bodies of u_memchr / u_memmove (stubs/icu_prims.h); the specification of the character rules in the harness (written from CIF 2.0 / 1.1)'])
+    C = ['a disallowed unit among the consumed units => CIF_DISALLOWED_CHAR reported at that unit', 'unpaired lead / trail surrogate => CIF_INVALID_CHAR, trail replaced',
+         'surrogate pair encoding a noncharacter => two-unit CIF_DISALLOWED_CHAR', 'no report that the original text does not justify', 'text pointer inside the buffer for the stated length, line >= 1',
+         'result = CIF_OK or the first non-zero answer; no callback after a rejecting one']
+    js = [
+        Job('scan_to_eol_bounded', 'parser_scanb_h.c', entry='harness_scan_to_eol_b', functions=['scan_to_eol', 'get_more_chars'], reach=['recovered', 'clean', 'rejected-eol'], clauses=C + ['comment ends at EOL / end of input'], **common),
+        Job('scan_to_ws_bounded', 'parser_scanb_h.c', entry='harness_scan_to_ws_b', functions=['scan_to_ws', 'get_more_chars'], reach=['recovered', 'clean', 'rejected-ws'], clauses=C + ['token ends at whitespace / end of input'], **common),
+        Job('scan_unquoted_bounded', 'parser_scanb_h.c', entry='harness_scan_unquoted_b', functions=['scan_unquoted', 'get_more_chars'], reach=['recovered', 'clean', 'rejected-unq'], clauses=C, **common),
     ]
+    for j in js:
+        j.thorough_unwind = 5
+    return js
 
 
 def check(tier):
